@@ -5,34 +5,26 @@ From CC Require Import Model.Calc.
 Import ListNotations.
 Open Scope Z_scope.
 
-(** the one place where the calculator's precedence table differs from C's: == and != share a
-    level with the relational operators, so "a == b < c" groups to the left *)
-Definition deviates (o1 o2 : bop) : bool :=
-  match o1, o2 with
-  | (OEq | ONeq), (OGt | OGte | OLt | OLte) => true
-  | _, _ => false
-  end.
-
 Definition seq2 (o1 o2 : bop) (a b c : Z) : cres :=
   if c_groups_left o1 o2
   then match apply_bin o1 a b with COk v => apply_bin o2 v c | e => e end
   else match apply_bin o2 b c with COk v => apply_bin o1 a v | e => e end.
 
 (** for every pair of binary operators (289 pairs) and all operand values, "a o1 b o2 c" is
-    grouped as C groups it, except for the pairs of [deviates] *)
+    grouped as C groups it (since the repair of the equality/relational level: no exception) *)
 Theorem C10_pairs_grouped_as_C : forall o1 o2 a b c,
-  is_ternary o1 = false -> is_ternary o2 = false -> deviates o1 o2 = false ->
+  is_ternary o1 = false -> is_ternary o2 = false ->
   calc [TNum a; TBin o1; TNum b; TBin o2; TNum c] = seq2 o1 o2 a b c.
 Proof.
-  intros o1 o2 a b c H1 H2 D.
-  destruct o1; try discriminate H1; destruct o2; try discriminate H2; try discriminate D.
+  intros o1 o2 a b c H1 H2.
+  destruct o1; try discriminate H1; destruct o2; try discriminate H2.
   all: unfold calc, seq2, c_groups_left; cbn -[apply_bin].
   all: repeat match goal with |- context [apply_bin ?o ?x ?y] => destruct (apply_bin o x y) end; try reflexivity.
 Qed.
 
-(** the deviation is real: 2 == 1 < 1 is 0 in C (2 == (1 < 1)) and 1 here ((2 == 1) < 1) *)
-Theorem C10_eq_rel_precedence_refuted :
-  calc [TNum 2; TBin OEq; TNum 1; TBin OLt; TNum 1] = COk 1 /\ seq2 OEq OLt 2 1 1 = COk 0.
+(** the former deviation is gone: 2 == 1 < 1 is 2 == (1 < 1) = 0, as in C *)
+Theorem C10_eq_rel_precedence_fixed :
+  calc [TNum 2; TBin OEq; TNum 1; TBin OLt; TNum 1] = COk 0 /\ seq2 OEq OLt 2 1 1 = COk 0.
 Proof. split; vm_compute; reflexivity. Qed.
 
 (** unary operators bind tighter than every binary operator *)
